@@ -18,8 +18,60 @@ import tempfile
 import types
 
 
-def py_normpath(path):
-    """posixpath.normpath of CPython 3.10 (str and bytes)."""
+def _lazy_str_class():
+    from crosshair.libimpl.builtinslib import LazyIntSymbolicStr
+    return LazyIntSymbolicStr
+
+
+def sym_split(path, sep="/"):
+    """`path.split(sep)` for a one-character separator.  On a plain str it IS str.split.  On CrossHair's symbolic str
+    (a sequence of code points, each a Python int or a solver int) the code points are scanned once, without
+    recursion: a concrete code point is compared natively, a solver code point by the solver (forks exactly as
+    `==` does).  CrossHair's own split recurses once per separator and re-slices the rest (0.8 ms per character,
+    RecursionError beyond ~900 separators), which long names cannot afford.  Segments without a solver code point
+    come back as plain str.  Differentially checked against CrossHair's split under the tracer (harness query
+    model/split) and against CPython natively (validate_normpath)."""
+    from crosshair.core import NoTracing, ResumedTracing
+    from crosshair.tracers import is_tracing
+    if not is_tracing():
+        return path.split(sep)
+    with NoTracing():
+        lazy_class = _lazy_str_class()
+        lazy = isinstance(path, lazy_class) and isinstance(sep, str) and len(sep) == 1
+    if not lazy:
+        return path.split(sep)
+    points = list(path._codepoints)          # traced: decides the length of the symbolic parts
+    with NoTracing():
+        cut = ord(sep)
+        out = []
+        start = 0
+        concrete = True
+        n = len(points)
+        for i in range(n + 1):
+            if i < n:
+                cp = points[i]
+                if type(cp) is int:
+                    hit = cp == cut
+                else:
+                    concrete = False
+                    with ResumedTracing():
+                        hit = bool(cp == cut)
+                if not hit:
+                    continue
+            seg = points[start:i]
+            out.append("".join(map(chr, seg)) if concrete else lazy_class(seg))
+            start = i + 1
+            concrete = True
+    return out
+
+
+def py_normpath_ref(path):
+    """posixpath.normpath of CPython 3.10, verbatim (str.split of the engine): reference for py_normpath."""
+    return py_normpath(path, _split=lambda p, sep: p.split(sep))
+
+
+def py_normpath(path, _split=None):
+    """posixpath.normpath of CPython 3.10 (str and bytes); a str is split by sym_split (same result, one pass)."""
     path = os.fspath(path)
     if isinstance(path, bytes):
         sep, empty, dot, dotdot = b"/", b"", b".", b".."
@@ -31,7 +83,12 @@ def py_normpath(path):
     # POSIX allows one or two initial slashes, but treats three or more as single slash.
     if initial_slashes and path.startswith(sep * 2) and not path.startswith(sep * 3):
         initial_slashes = 2
-    comps = path.split(sep)
+    if _split is not None:
+        comps = _split(path, sep)
+    elif isinstance(path, bytes):
+        comps = path.split(sep)
+    else:
+        comps = sym_split(path, sep)
     new_comps = []
     for comp in comps:
         if comp == empty or comp == dot:
@@ -63,8 +120,19 @@ def validate_normpath(maxlen=7):
         got = py_normpath(s)
         assert got == want, "py_normpath(%r) = %r, C normpath = %r" % (s, got, want)
         assert py_normpath(s.encode()) == want.encode(), s
+        assert py_normpath_ref(s) == want, s
         n += 1
     return n
+
+
+def validate_long(paths):
+    """py_normpath == the C normpath on the given (long) paths, str and bytes"""
+    for s in paths:
+        want = posixpath.normpath(s)
+        assert py_normpath(s) == want and py_normpath_ref(s) == want, "py_normpath on a path of %d characters (%r...)" % (
+            len(s), s[:40])
+        assert py_normpath(s.encode()) == want.encode()
+    return len(paths)
 
 
 # ---------------------------------------------------------------- file system
@@ -135,7 +203,7 @@ class FakeFS:
     def _walk(stack, path):
         """follow `path` from the directory stack[-1]; the new stack or None (ENOENT/ENOTDIR)"""
         stack = list(stack)
-        for seg in path.split("/"):
+        for seg in sym_split(path, "/"):
             if not stack[-1].isdir:
                 return None
             if seg == "" or seg == ".":
@@ -279,7 +347,7 @@ def keep_caches(module_prefix):
     core._PATCH_REGISTRATIONS[real_call] = call
 
 
-def validate_fs(tree, maxlen=5):
+def validate_fs(tree, maxlen=5, extra=()):
     """FakeFS.exists/isfile == the operating system's on the same tree written to a scratch
     directory, for every absolute path '/' + s, s over the characters of the tree's names and
     './', |s| <= maxlen, that does not climb above '/' (where the scratch prefix would show)."""
@@ -291,6 +359,7 @@ def validate_fs(tree, maxlen=5):
             if isinstance(sub, dict):
                 collect(sub)
     collect(tree)
+    names = sorted(set(names))
     short = sorted({n for n in names if len(n) == 1})
     base = tempfile.mkdtemp(prefix="c16_fs_", dir="/tmp")
     n = 0
@@ -314,6 +383,7 @@ def validate_fs(tree, maxlen=5):
                 for s in _strings("./" + "".join(short[:2]), 3):
                     probes.add("/" + a + "/" + b + "/" + s)
                     probes.add("//" + a + "//" + b + s)
+        probes.update(extra)                  # long / deep absolute paths given by the caller
         for p in sorted(probes):
             depth = 0
             climbs = False
